@@ -127,7 +127,7 @@ func tagsOf(ds gast.DirectiveList) []string {
 func fromArgs(as gast.ArgumentDefinitionList) []InputVal {
 	out := []InputVal{}
 	for _, a := range as {
-		out = append(out, InputVal{Name: a.Name, Desc: normDesc(a.Description), Type: fromType(a.Type), Def: fromValue(a.DefaultValue), Dep: depOf(a.Directives)})
+		out = append(out, InputVal{Name: a.Name, Desc: normDesc(a.Description), Type: fromType(a.Type), Def: fromValue(a.DefaultValue), Dep: depOf(a.Directives), Tags: tagsOf(a.Directives)})
 	}
 	return out
 }
@@ -174,7 +174,7 @@ func schemaFromSDL(sdl string) (s *Schema, err error) {
 	for _, d := range doc.Definitions {
 		has[d.Name] = true
 		t := TypeDef{Name: d.Name, Kind: kindOf(d.Kind), Desc: normDesc(d.Description), Fields: []FieldDef{}, Ifaces: []string{},
-			Members: []string{}, Values: []EnumVal{}, Inputs: []InputVal{}}
+			Members: []string{}, Values: []EnumVal{}, Inputs: []InputVal{}, Tags: tagsOf(d.Directives)}
 		switch d.Kind {
 		case gast.Object, gast.Interface:
 			t.Ifaces = append(t.Ifaces, d.Interfaces...)
@@ -186,11 +186,11 @@ func schemaFromSDL(sdl string) (s *Schema, err error) {
 			t.Members = append(t.Members, d.Types...)
 		case gast.Enum:
 			for _, v := range d.EnumValues {
-				t.Values = append(t.Values, EnumVal{Name: v.Name, Desc: normDesc(v.Description), Dep: depOf(v.Directives)})
+				t.Values = append(t.Values, EnumVal{Name: v.Name, Desc: normDesc(v.Description), Dep: depOf(v.Directives), Tags: tagsOf(v.Directives)})
 			}
 		case gast.InputObject:
 			for _, f := range d.Fields {
-				t.Inputs = append(t.Inputs, InputVal{Name: f.Name, Desc: normDesc(f.Description), Type: fromType(f.Type), Def: fromValue(f.DefaultValue), Dep: depOf(f.Directives)})
+				t.Inputs = append(t.Inputs, InputVal{Name: f.Name, Desc: normDesc(f.Description), Type: fromType(f.Type), Def: fromValue(f.DefaultValue), Dep: depOf(f.Directives), Tags: tagsOf(f.Directives)})
 			}
 		case gast.Scalar:
 			if sp := d.Directives.ForName("specifiedBy"); sp != nil {
